@@ -69,6 +69,29 @@ Section Statements.
     r_out (call F p k value gas inp st) <> Panic.
   Proof. exact (evm_call_no_panic St body after_mint transfer). Qed.
 
+  (** Gas charged = gas consumed: a successful call is charged exactly RequiredGas plus what the local
+      gas meter recorded for the body, and that sum never exceeds the gas forwarded. *)
+  Theorem C08_gas_charged_is_consumed : forall F p k value gas inp st,
+    guards_ok F = true -> panic_ok F = true ->
+    r_out (call F p k value gas inp st) = Ok ->
+    exists mf args rq st' u,
+      selected (pc_of F p) inp = Some mf /\ i_unpack inp = Some args /\
+      required_gas F (pc_of F p) (cap4_of k inp) inp = GGas rq /\
+      body_ok St body after_mint (mf_id mf) args
+        (if transfers k && negb (value =? 0) then transfer st value else st) (gas - rq) st' u /\
+      gas - r_left (call F p k value gas inp st) = rq + Z.max 0 u /\ rq + Z.max 0 u <= gas.
+  Proof. exact (evm_call_gas_charged St body after_mint transfer). Qed.
+
+  (** Hence the price of a call does not depend on the gas forwarded: whatever the same call is
+      charged when it succeeds with gas' (e.g. ample gas) is what every successful run is charged,
+      and no run with less forwarded gas than that succeeds (the clause [P_gas] checked on traces). *)
+  Theorem C08_cost_independent_of_gas : forall F p k value gas gas' inp st,
+    guards_ok F = true -> panic_ok F = true -> body_cost_deterministic St body after_mint ->
+    r_out (call F p k value gas' inp st) = Ok ->
+    P_gas (r_out (call F p k value gas inp st)) gas (r_left (call F p k value gas inp st))
+          (Some (gas' - r_left (call F p k value gas' inp st))).
+  Proof. exact (evm_call_cost_independent St body after_mint transfer). Qed.
+
   (** The whole property predicate — the one evaluated on implementation traces — holds of every
       model run. *)
   Theorem C08_model_satisfies_property : forall F p k value gas inp st,
@@ -93,6 +116,8 @@ Print Assumptions C08_static_never_mutates.
 Print Assumptions C08_query_never_mutates.
 Print Assumptions C08_guarded_query_never_mutates.
 Print Assumptions C08_no_panic_partial.
+Print Assumptions C08_gas_charged_is_consumed.
+Print Assumptions C08_cost_independent_of_gas.
 Print Assumptions C08_model_satisfies_property.
 Print Assumptions C08_nested_static_if_inherited.
 
@@ -148,6 +173,24 @@ Theorem C08_checker_sound : forall k value gas m cls left (se ce : bool),
   Pb k value gas m cls left se ce = true -> P k value gas m cls left (se = true) (ce = true).
 Proof. exact Pb_sound. Qed.
 Print Assumptions C08_checker_sound.
+
+(** A local gas meter that is not capped by the gas left on the contract (e.g. contract.Gas + RequiredGas)
+    violates the gas clause: the faithful model lets the call succeed below its cost. *)
+Theorem C08_gas_charged_refuted_without_capped_meter :
+  exists gas,
+    let r := evm_call Z sample_body sample_after_mint sample_transfer (with_local_meter reference_facts false)
+               PFunToken KTop 0 gas (bankMsgSend_call unibi 5) 0 in
+    let r_ample := evm_call Z sample_body sample_after_mint sample_transfer (with_local_meter reference_facts false)
+               PFunToken KTop 0 1000000 (bankMsgSend_call unibi 5) 0 in
+    r_out r_ample = Ok /\ r_st r = 1 /\
+    ~ P_gas (r_out r) gas (r_left r) (Some (1000000 - r_left r_ample)).
+Proof. exact gas_charged_refuted_without_capped_meter. Qed.
+Print Assumptions C08_gas_charged_refuted_without_capped_meter.
+
+Theorem C08_gas_checker_sound : forall cls gas left cost,
+  Pb_gas cls gas left cost = true -> P_gas cls gas left cost.
+Proof. exact Pb_gas_sound. Qed.
+Print Assumptions C08_gas_checker_sound.
 
 Theorem C08_nested_checker_sound : forall k m cls (se : bool),
   Pb_nested k m cls se = true -> P_nested k m cls (se = true).
